@@ -534,6 +534,99 @@ func ruleSourceAgree(r *Run) {
 }
 
 // ---------------------------------------------------------------------------
+// R-SEGMENT-VALUE (C19): the text of a goldmark segment is Segment.Value(source): besides the bytes
+// [Start,Stop) it materialises the segment's Padding (the columns of a partially consumed tab in
+// indented code).  Slicing the source with Start/Stop directly loses that indentation.
+// ---------------------------------------------------------------------------
+
+func ruleSegmentValue(r *Run) {
+	p := r.P
+	nVal := 0
+	isSegField := func(v ssa.Value, names ...string) bool {
+		var fv *types.Var
+		switch x := v.(type) {
+		case *ssa.FieldAddr:
+			fv, _ = fieldOfAddr(x)
+		case *ssa.Field:
+			fv, _ = fieldOfVal(x)
+		}
+		if fv == nil || fv.Pkg() == nil || !strings.HasSuffix(fv.Pkg().Path(), "goldmark/text") {
+			return false
+		}
+		for _, n := range names {
+			if fv.Name() == n {
+				return true
+			}
+		}
+		return false
+	}
+	for _, fn := range p.ModFuncs() {
+		if fn.Pkg == nil || fn.Pkg.Pkg.Path() != pkgMd {
+			continue
+		}
+		readsPadding := false
+		var raw []*ssa.Slice
+		allInstrs(fn, func(in ssa.Instruction) {
+			if c, ok := in.(ssa.CallInstruction); ok {
+				if cal := staticCallee(c); cal != nil && cal.Name() == "Value" && cal.Pkg != nil && strings.HasSuffix(cal.Pkg.Pkg.Path(), "goldmark/text") {
+					nVal++
+				}
+			}
+			if v, ok := in.(ssa.Value); ok && isSegField(v, "Padding") {
+				readsPadding = true
+			}
+			sl, ok := in.(*ssa.Slice)
+			if !ok {
+				return
+			}
+			if bt, ok := sl.X.Type().Underlying().(*types.Slice); !ok || bt.Elem().String() != "byte" {
+				return
+			}
+			for _, bound := range []ssa.Value{sl.Low, sl.High} {
+				if bound == nil {
+					continue
+				}
+				seen := map[ssa.Value]bool{}
+				var dep func(v ssa.Value) bool
+				dep = func(v ssa.Value) bool {
+					if v == nil || seen[v] {
+						return false
+					}
+					seen[v] = true
+					if isSegField(v, "Start", "Stop") {
+						return true
+					}
+					switch x := v.(type) {
+					case *ssa.UnOp:
+						return dep(x.X)
+					case *ssa.BinOp:
+						return dep(x.X) || dep(x.Y)
+					case *ssa.Phi:
+						for _, e := range x.Edges {
+							if dep(e) {
+								return true
+							}
+						}
+					case *ssa.Convert:
+						return dep(x.X)
+					}
+					return false
+				}
+				if dep(bound) {
+					raw = append(raw, sl)
+					break
+				}
+			}
+		})
+		for _, sl := range raw {
+			r.Check("segment-value", shortName(fn)+":raw-slice", sl.Pos(), readsPadding,
+				fmt.Sprintf("%s cuts a segment's text out of the source with its Start/Stop offsets instead of Segment.Value(): the segment's padding (indentation left over from a partially consumed tab in a code line) is lost", shortName(fn)))
+		}
+	}
+	r.Min("segment_value_calls", nVal, 1)
+}
+
+// ---------------------------------------------------------------------------
 // R-EXPORT-ALL-CELLS (C20): "every run's text present exactly once" — for tables: every cell of
 // every row is exported.  Rows of a document table differ in length (horizontal merges remove
 // cells), so the cells of a row must be visited by a range over THAT row's cells; a counted loop
